@@ -82,6 +82,10 @@ func (r *receivingConnProvider) NewConnection() (net.Conn, error) {
 	// Log a nicer message when shutting down normally
 	if r.lifetime.Err() != nil {
 		r.logger.Info("Listener cancelled due to shutdown")
+		if conn != nil {
+			// Accepted while shutting down: do not leave the connection open
+			_ = conn.Close()
+		}
 		return nil, r.lifetime.Err()
 	}
 	if err != nil {
